@@ -877,3 +877,77 @@ def lex_strict_shortcuts(rep, ex: Explorer, be: Backend):
         else:
             rep.violation("LEX.strict-shortcuts", site, "shortcut answer", "a strict answer without the layers is not a Boolean constant", extracted=str(out), required="True/False", function=site)
     return n
+
+
+# ----------------------------------------------------------------------------------------------
+# preprocessing flows
+# ----------------------------------------------------------------------------------------------
+def summary_b2c(I, fi, args, kwargs, node):
+    I.log("b2c", node, args=tuple(args[1:]), kwargs=dict(kwargs))
+    return Sym(("b2c-time",), "float")
+
+
+def preprocess_flow(rep, ex: Explorer, be: Backend, prefix):
+    """<prefix>.partition-flow: what `_inference` reads from the state is what preprocessing wrote: the verified
+    partition of the state's base in the state's mode (rc2: key-based, plus the f/nf CNF slots; z3: object-based,
+    translated conditional by conditional with antecedent and consequent preserved - Z3.translate)."""
+    from .sysz import partition_flow
+
+    qual = f"{be.cls}._preprocess_belief_base"
+    site = fn_label(ex.prog, qual)
+    rule = f"{prefix}.partition-flow"
+    summ = dict(wrappers.SUMMARIES)
+    summ["inference.tseitin_transformation.TseitinTransformation.belief_base_to_cnf"] = summary_b2c
+
+    def setup(I):
+        bb = make_belief_base(I)
+        es = make_epistemic_state(I, bb, "x")
+        s = I.alloc(HObj(be.cls, {"epistemic_state": es}))
+        return [s, Sym("weakly", "bool"), Sym("deadline")], {}
+
+    paths = ex.run(qual, setup, summaries=summ, key=f"preproc-{be.name}")
+    n = 0
+    for p in paths:
+        if p.outcome[0] != "return":
+            continue
+        cons = [ev for ev, Q in iter_events(p.events) if ev.kind == "summary.consistency"]
+        if any(decided(p, ("partfalse", ("part", c.pid))) is True for c in cons):
+            continue
+        n += 1
+        ok = len(cons) == 1
+        rep.check(ok, rule, site, "partition source", "the partition is computed once by the verified partition function", extracted=f"{len(cons)} call(s)", required="1", function=site)
+        if not ok:
+            continue
+        c = cons[0]
+        same_bb = c.bbdesc[1] == () and len(c.bbdesc[2]) == 1 and c.bbdesc[2][0][0] == KEYS_D
+        flag = returned_bool(None, c.weakly) == ("truthy", "weakly")
+        rep.check(same_bb and flag and c.pkind == be.kind, rule, site, "partition arguments", "partition of the state's own base in the selected mode",
+                  extracted=f"base={'state base' if same_bb else 'other'}, mode={c.weakly!r}, variant={c.pkind}", required=f"state base, state mode, {be.kind}-based", function=site)
+        # the slot
+        es = None
+        for oid, o in p.state.heap.items():
+            if hasattr(o, "entries") and "partition" in getattr(o, "entries", {}) and "belief_base" in o.entries:
+                es = o
+        val = es.entries.get("partition") if es is not None else None
+        pv = ("part", c.pid)
+        if be.name == "rc2":
+            ok = isinstance(val, ElemV) and val.var == pv
+            rep.check(ok, rule, site, "partition slot", "the state's partition slot holds exactly that partition", extracted=repr(val), required="the computed partition", function=site)
+            b2c = [ev for ev, Q in iter_events(p.events) if ev.kind == "b2c"]
+            okc = len(b2c) == 1 and len(b2c[0].args) >= 3 and all(isinstance(a, Const) for a in b2c[0].args[:3]) and b2c[0].args[1].value is True and b2c[0].args[2].value is True
+            rep.check(okc, "CNF.roles", site, "slots filled", "preprocessing fills the falsification and non-falsification CNF slots the recursion reads",
+                      extracted=repr(b2c[0].args) if b2c else "no call", required="belief_base_to_cnf(_, True, True)", function=site)
+        else:
+            vw = view(p.state, val)
+            ok = False
+            det = repr(vw)[:300]
+            if isinstance(vw, tuple) and vw[0] == "list" and len(vw[1]) == 1 and vw[1][0][0] == "each":
+                _, L, fam, g, inner = vw[1][0]
+                if fam == ("members", pv) and g == PTRUE and isinstance(inner, tuple) and inner[0] == "list" and len(inner[1]) == 1 and inner[1][0][0] == "each":
+                    _, cvar, fam2, g2, obj = inner[1][0]
+                    if fam2 == ("members", L) and g2 == PTRUE and isinstance(obj, tuple) and obj[0] == "condobj":
+                        ok = obj[1] == F.canon(A(cvar)) and obj[2] == F.canon(B(cvar))
+                        det = f"layers of the partition, each conditional translated to (B:{obj[2][1]}|A:{obj[1][1]})"
+            rep.check(ok, "Z3.translate", site, "translated partition", "the stored partition has the same layers in the same order, every conditional translated with antecedent and consequent preserved",
+                      extracted=det, required="[[translate(c) for c in layer] for layer in partition], A≡c.A, B≡c.B", function=site)
+    rep.floor(f"{rule} paths ({be.name})", n, 1)
